@@ -176,8 +176,12 @@ template <class T> static void runLines (int far)
             if (qabs (len (toQ (c1) - toQ (c2)) - trueDist) > (Q) 1e-3 * (1 + trueDist)) ++counts[std::string ("parallel_closestPoints_true_but_not_closest:") + tname<T> ()];
         }
         else ++counts[std::string ("parallel_closestPoints_reported_false:") + tname<T> ()];
-        // distanceTo (line) for parallel lines: the distance of l2.pos to l1
-        check<T> ("Line3.distanceToLine", "parallel", qabs ((Q) dl - trueDist), scale, 64, in);
+        // distanceTo (line) for parallel lines: the distance of l2.pos to l1.  Judged only when the two ROUNDED directions are
+        // still exactly parallel (bitwise equal or opposite): otherwise the represented lines are not parallel and their distance
+        // is unrelated to the lattice answer (counted).
+        bool same = (l1.dir == l2.dir) || (l1.dir == -l2.dir);
+        if (same) check<T> ("Line3.distanceToLine", "parallel", qabs ((Q) dl - trueDist), scale, 64, in);
+        else ++counts[std::string ("parallel_in_lattice_but_directions_differ_by_rounding:") + tname<T> ()];
         return;
     }
     // feet of the common perpendicular of the exact lines
